@@ -92,13 +92,54 @@ pub fn username<const N: usize, const B: usize, const M: usize, const MAPPED: bo
                 pv_check!(s, false, "MODEL: normalizer model capacity");
             }
             Some(exp) => {
-                pv_cover!(s, x.n == N && matches!(exp, Ok(ref e) if e.n != a.n), "COVER(enforce): enforce changes the length (NFC composition)");
+                pv_cover!(s, x.n == N && matches!(exp, Ok(ref e) if e.n != a.n), "COVER(enforce,n2): enforce changes the length (NFC composition)");
                 pv_cover!(s, x.n == N && spec_prepare(&a).is_ok() && matches!(exp, Err(Error::Invalid)), "COVER(enforce): prepared but rejected by the directionality rule");
                 pv_cover!(s, x.n == N && mapped && matches!(exp, Ok(ref e) if !e.eq(&spec_width(&a))), "COVER(mapped_enforce): case mapping or NFC changes the prepared string");
                 pv_check!(s, same::<M>(&got, &exp), "PV: username enforce = prepare, case mapping (mapped profile only), NFC, non-empty, directionality, in this order");
             }
         }
         std::mem::forget(got);
+    }
+}
+
+/// compare() of a username profile with ONE symbolic operand and one constant operand (see pipe::compare_const_freeform)
+pub fn compare_const_username<const N: usize, const B: usize, const M: usize, const MAPPED: bool, const K: usize, const CONST_FIRST: bool, S: Src>(s: &mut S) {
+    let x = SymStr::<N>::from_alphabet(s, &oracle::SIGMA_PIPE);
+    let mut buf = SBuf::<B>::new();
+    x.fill(&mut buf);
+    let input = buf.as_str();
+    let k = super::pipe::CMP_CONSTS_ID[K];
+    pv_note!(s, "username compare (mapped={}): symbolic {:?}, constant {:?} (constant first: {})", MAPPED, input, k, CONST_FIRST);
+    let got = match (MAPPED, CONST_FIRST) {
+        (true, false) => UsernameCaseMapped::new().compare(input, k),
+        (true, true) => UsernameCaseMapped::new().compare(k, input),
+        (false, false) => UsernameCasePreserved::new().compare(input, k),
+        (false, true) => UsernameCasePreserved::new().compare(k, input),
+    };
+    let ka = {
+        let mut c = ['\0'; M];
+        let mut n = 0;
+        for ch in k.chars() {
+            c[n] = ch;
+            n += 1;
+        }
+        Arr::<M> { c, n }
+    };
+    let ex = spec_enforce::<M, 16>(&Arr::<M>::from_sym(&x), MAPPED);
+    let ek = spec_enforce::<M, 16>(&ka, MAPPED);
+    if let (Some(ex), Some(ek)) = (ex, ek) {
+        let (first, second) = if CONST_FIRST { (ek, ex) } else { (ex, ek) };
+        let exp: Result<bool, Error> = match (first, second) {
+            (Err(e), _) => Err(e),
+            (Ok(_), Err(e)) => Err(e),
+            (Ok(a), Ok(b)) => Ok(a.eq(&b)),
+        };
+        pv_cover!(s, exp == Ok(true), "COVER(k1): equal canonical forms");
+        pv_cover!(s, exp == Ok(false), "COVER(k1): accepted, different");
+        pv_cover!(s, matches!(exp, Err(Error::BadCodepoint(_))) && x.n > 0, "COVER: a class error is reported");
+        pv_check!(s, got == exp, "PV: username compare(a, b) = (enforce(a)? == enforce(b)?), first operand's error first");
+    } else {
+        pv_check!(s, false, "MODEL: normalizer model capacity");
     }
 }
 
@@ -132,91 +173,96 @@ pub fn compare_username<const N: usize, const B: usize, const M: usize, S: Src>(
     }
 }
 
-pub fn no_drift_username<const N: usize, const B: usize, const M: usize, S: Src>(s: &mut S) {
-    let x = SymStr::<N>::from_alphabet(s, &oracle::SIGMA_PIPE);
-    let mut buf = SBuf::<B>::new();
-    x.fill(&mut buf);
-    let mapped = s.bool();
-    pv_note!(s, "username (mapped={}): enforce(enforce({:?}))", mapped, buf.as_str());
-    let e1 = if mapped { UsernameCaseMapped::new().enforce(buf.as_str()) } else { UsernameCasePreserved::new().enforce(buf.as_str()) };
-    if let Ok(ref e) = e1 {
-        let mut ea = ['\0'; M];
-        let k = decode(e, &mut ea);
-        let first = Arr::<M> { c: ea, n: k };
-        pv_cover!(s, e.len() != buf.len, "COVER: enforcement changed the input");
-        let e2 = if mapped { UsernameCaseMapped::new().enforce(&**e) } else { UsernameCasePreserved::new().enforce(&**e) };
-        let ok = match e2 {
-            Ok(ref f) => {
-                let mut fa = ['\0'; M];
-                let kf = decode(f, &mut fa);
-                (Arr::<M> { c: fa, n: kf }).eq(&first)
-            }
-            Err(_) => true,
-        };
-        pv_check!(s, ok, "PV: enforcing an enforced username never yields a different string");
-        let mut bad = false;
-        let mut i = 0;
-        while i < M {
-            if i < k {
-                let v = IdentifierClass::default().get_value_from_char(ea[i]);
-                if v == DerivedPropertyValue::Disallowed || v == DerivedPropertyValue::Unassigned {
-                    bad = true;
-                }
-            }
-            i += 1;
+pub fn no_drift_username<const N: usize, const B: usize, const M: usize, const MAPPED: bool, S: Src>(s: &mut S) {
+    let y = SymStr::<N>::from_alphabet(s, &oracle::SIGMA_PIPE);
+    let ya = Arr::<M>::from_sym(&y);
+    match spec_enforce::<M, 16>(&ya, MAPPED) {
+        None => {
+            pv_check!(s, false, "MODEL: normalizer model capacity");
         }
-        pv_check!(s, !bad, "PV: no code point of an enforced username is DISALLOWED or UNASSIGNED in IdentifierClass");
-        std::mem::forget(e2);
+        Some(Err(_)) => {}
+        Some(Ok(e)) => {
+            let mut buf = SBuf::<B>::new();
+            e.fill(&mut buf);
+            pv_note!(s, "username (mapped={}): enforce of the canonical form {:?}", MAPPED, buf.as_str());
+            pv_cover!(s, !e.eq(&ya), "COVER: a canonical form that differs from its input");
+            let again = if MAPPED { UsernameCaseMapped::new().enforce(buf.as_str()) } else { UsernameCasePreserved::new().enforce(buf.as_str()) };
+            let ok = match again {
+                Ok(ref f) => {
+                    let mut fa = ['\0'; M];
+                    let kf = decode(f, &mut fa);
+                    (Arr::<M> { c: fa, n: kf }).eq(&e)
+                }
+                Err(_) => true,
+            };
+            pv_check!(s, ok, "PV: enforcing an enforced username never yields a different string");
+            let mut bad = false;
+            let mut i = 0;
+            while i < M {
+                if i < e.n {
+                    let v = IdentifierClass::default().get_value_from_char(e.c[i]);
+                    if v == DerivedPropertyValue::Disallowed || v == DerivedPropertyValue::Unassigned {
+                        bad = true;
+                    }
+                }
+                i += 1;
+            }
+            pv_check!(s, !bad, "PV: no code point of an enforced username is DISALLOWED or UNASSIGNED in IdentifierClass");
+            std::mem::forget(again);
+        }
     }
-    std::mem::forget(e1);
 }
 
-pub fn api_forms_username<const N: usize, const B: usize, const M: usize, S: Src>(s: &mut S) {
+/// One API form of one operation of a username profile against the specification (see pipe::api_form_freeform).
+/// FORM: 0 static prepare, 1 static enforce, 2 static compare(x, "a"), 3 enforce(String), 4 enforce(Cow)
+pub fn api_form_username<const N: usize, const B: usize, const M: usize, const MAPPED: bool, const FORM: usize, S: Src>(s: &mut S) {
     let x = SymStr::<N>::from_alphabet(s, &oracle::SIGMA_PIPE);
     let mut buf = SBuf::<B>::new();
     x.fill(&mut buf);
     let input = buf.as_str();
-    let mapped = s.bool();
-    let op = s.below(2);
-    let form = s.below(3); // 0 static 1 String 2 Cow
-    pv_note!(s, "username (mapped={}) op {} form {} on {:?}", mapped, op, form, input);
-    macro_rules! run {
-        ($inst:expr, $arg:expr) => {{
-            let a: Res = if op == 0 { $inst.prepare($arg) } else { $inst.enforce($arg) };
-            a
-        }};
+    pv_note!(s, "username (mapped={}) API form {} on {:?}", MAPPED, FORM, input);
+    let a = Arr::<M>::from_sym(&x);
+    if FORM == 2 {
+        let got = if MAPPED {
+            <UsernameCaseMapped as PrecisFastInvocation>::compare(input, "a")
+        } else {
+            <UsernameCasePreserved as PrecisFastInvocation>::compare(input, "a")
+        };
+        let ka = Arr::<M> { c: { let mut c = ['\0'; M]; c[0] = 'a'; c }, n: 1 };
+        if let (Some(ex), Some(ek)) = (spec_enforce::<M, 16>(&a, MAPPED), spec_enforce::<M, 16>(&ka, MAPPED)) {
+            let exp: Result<bool, Error> = match (ex, ek) {
+                (Err(e), _) => Err(e),
+                (Ok(_), Err(e)) => Err(e),
+                (Ok(p), Ok(q)) => Ok(p.eq(&q)),
+            };
+            pv_cover!(s, exp == Ok(true), "COVER(f2): equal");
+            pv_check!(s, got == exp, "PV: static compare = the specification's compare (usernames)");
+        } else {
+            pv_check!(s, false, "MODEL: normalizer model capacity");
+        }
+        return;
     }
-    macro_rules! run_static {
-        ($ty:ty, $arg:expr) => {{
-            let a: Res = if op == 0 { <$ty as PrecisFastInvocation>::prepare($arg) } else { <$ty as PrecisFastInvocation>::enforce($arg) };
-            a
-        }};
+    let exp: Option<Spec<M>> = if FORM == 0 { Some(spec_prepare(&a)) } else { spec_enforce::<M, 16>(&a, MAPPED) };
+    let got: Res = match (FORM, MAPPED) {
+        (0, true) => <UsernameCaseMapped as PrecisFastInvocation>::prepare(input),
+        (0, false) => <UsernameCasePreserved as PrecisFastInvocation>::prepare(input),
+        (1, true) => <UsernameCaseMapped as PrecisFastInvocation>::enforce(input),
+        (1, false) => <UsernameCasePreserved as PrecisFastInvocation>::enforce(input),
+        (3, true) => UsernameCaseMapped::new().enforce(String::from(input)),
+        (3, false) => UsernameCasePreserved::new().enforce(String::from(input)),
+        (_, true) => UsernameCaseMapped::new().enforce(Cow::Borrowed(input)),
+        (_, false) => UsernameCasePreserved::new().enforce(Cow::Borrowed(input)),
+    };
+    match exp {
+        None => {
+            pv_check!(s, false, "MODEL: normalizer model capacity");
+        }
+        Some(exp) => {
+            pv_cover!(s, x.n == N && exp.is_ok(), "COVER: accepted");
+            pv_check!(s, same::<M>(&got, &exp), "PV: every API form (static singleton, String, Cow) gives the specified result (usernames)");
+        }
     }
-    let base: Res = if mapped { run!(UsernameCaseMapped::new(), input) } else { run!(UsernameCasePreserved::new(), input) };
-    let mut ba = ['\0'; M];
-    let kb = match base {
-        Ok(ref b) => decode(b, &mut ba),
-        Err(_) => 0,
-    };
-    let base_spec: Spec<M> = match base {
-        Ok(_) => Ok(Arr { c: ba, n: kb }),
-        Err(ref e) => Err(super::pipe::clone_err(e)),
-    };
-    let other: Res = match form {
-        0 => {
-            if mapped { run_static!(UsernameCaseMapped, input) } else { run_static!(UsernameCasePreserved, input) }
-        }
-        1 => {
-            if mapped { run!(UsernameCaseMapped::new(), String::from(input)) } else { run!(UsernameCasePreserved::new(), String::from(input)) }
-        }
-        _ => {
-            if mapped { run!(UsernameCaseMapped::new(), Cow::Borrowed(input)) } else { run!(UsernameCasePreserved::new(), Cow::Borrowed(input)) }
-        }
-    };
-    pv_cover!(s, x.n == N && form == 0 && matches!(base, Ok(ref e) if e.len() != input.len()), "COVER: a changed result through the static form");
-    pv_check!(s, same::<M>(&other, &base_spec), "PV: static / String / Cow forms give the result of a fresh instance on &str (usernames)");
-    std::mem::forget(other);
-    std::mem::forget(base);
+    std::mem::forget(got);
 }
 
 pub fn binding_username<S: Src>(s: &mut S) {
